@@ -235,6 +235,7 @@ structure Core (s : St) : Prop where
     ∃ m ∈ s.delivered, m.id = some fu.id ∧ m.tag = t ∧ m.p2 = true
   queueNodup : s.rxQueue.Nodup
   keysLe : ∀ k sl, findSlot s.slots k = some sl → k ≤ s.nextId
+  rb : s.rollbackOnFail = false
 
 /-- well-formedness of the receive lock; `h = some f`: future `f` is running with the lock in its
 hands, its program counter is stale and says nothing -/
@@ -255,12 +256,12 @@ def Inv (s : St) : Prop := Core s ∧ Lock s none
 def Hold (s : St) (f : Fid) : Prop := Core s ∧ Lock s (some f)
 
 theorem inv_init : Inv {} := by
-  refine ⟨⟨rfl, ?_, ?_, rfl, ?_, ?_, ?_, ?_, ?_, ?_, ?_, ?_, ?_, ?_⟩, ⟨?_, ?_, ?_, ?_, ?_, ?_⟩⟩ <;> simp [findFut, findSlot]
+  refine ⟨⟨rfl, ?_, ?_, rfl, ?_, ?_, ?_, ?_, ?_, ?_, ?_, ?_, ?_, ?_, rfl⟩, ⟨?_, ?_, ?_, ?_, ?_, ?_⟩⟩ <;> simp [findFut, findSlot]
 
 /-! ## proof automation for the invariant -/
 
 macro "inv_fields" : tactic =>
-  `(tactic| refine ⟨⟨?_, ?_, ?_, ?_, ?_, ?_, ?_, ?_, ?_, ?_, ?_, ?_, ?_, ?_⟩, ⟨?_, ?_, ?_, ?_, ?_, ?_⟩⟩)
+  `(tactic| refine ⟨⟨?_, ?_, ?_, ?_, ?_, ?_, ?_, ?_, ?_, ?_, ?_, ?_, ?_, ?_, ?_⟩, ⟨?_, ?_, ?_, ?_, ?_, ?_⟩⟩)
 
 macro "inv_norm" : tactic =>
   `(tactic| try simp only [map_fid_setPc, map_id_setPc, findFut_setPc_some, findSlot_setSlot_some, findSlot_removeSlot, findFut_append_some, findSlot_append_some, if_true, if_false,
@@ -281,14 +282,14 @@ set_option hygiene false in
 /-- take a `Hold s f` apart; the hold clause is specialised to `f` -/
 macro "hold_cases" h:ident : tactic =>
   `(tactic| (
-    obtain ⟨⟨c1, c2, c3, c4, c5, c6, c7, c8, c9, c10, c11, c12, c13, c14⟩, ⟨h1, h2, h3, h4, h5, h6⟩⟩ := $h
+    obtain ⟨⟨c1, c2, c3, c4, c5, c6, c7, c8, c9, c10, c11, c12, c13, c14, c15⟩, ⟨h1, h2, h3, h4, h5, h6⟩⟩ := $h
     have h6 := h6 _ rfl
     simp only [ne_eq, Option.some.injEq] at h1 h2 h3 h5))
 
 set_option hygiene false in
 macro "inv_cases" h:ident : tactic =>
   `(tactic| (
-    obtain ⟨⟨c1, c2, c3, c4, c5, c6, c7, c8, c9, c10, c11, c12, c13, c14⟩, ⟨h1, h2, h3, h4, h5, h6⟩⟩ := $h
+    obtain ⟨⟨c1, c2, c3, c4, c5, c6, c7, c8, c9, c10, c11, c12, c13, c14, c15⟩, ⟨h1, h2, h3, h4, h5, h6⟩⟩ := $h
     clear h6
     simp only [ne_eq, reduceCtorEq, not_false_eq_true, true_and, forall_const] at h1 h2 h3 h5))
 
@@ -690,16 +691,76 @@ theorem openGate_inv {s : St} (h : Inv s) : Inv s.openGate.1 := by
       inv_fields <;> inv_norm <;> inv_close
 
 
+/-- the ghost record of the drawn ids plays no part in the invariant -/
+theorem inv_consumed {s : St} (l : List Nat) (h : Inv s) : Inv { s with consumed := l } := by
+  inv_cases h
+  inv_fields <;> inv_norm <;> inv_close
+
+theorem afterFail_eq {s : St} (h : s.rollbackOnFail = false) : s.afterFail = s := by
+  simp [St.afterFail, h]
+
+/-- in the code as it is (`rollbackOnFail = false`) an `rpc()` action is `St.send` plus the ghost record -/
+theorem sendAct_eq {s : St} (b : Bool) (hrb : s.rollbackOnFail = false) (hr : s.rpc = none) :
+    s.sendAct b = { (s.send b).1 with consumed := s.consumed ++ [s.nextId + 1] } := by
+  have h2 : (s.send b).1.rollbackOnFail = false := by
+    unfold St.send
+    simp only [hr, Option.isSome_none, Bool.false_eq_true, if_false]
+    split
+    · exact hrb
+    · split
+      · exact hrb
+      · split
+        · exact hrb
+        · split <;> exact hrb
+  simp only [St.sendAct, hr, Option.isSome_none, Bool.false_eq_true, if_false]
+  split
+  · exact afterFail_eq (by exact h2)
+  · rfl
+
+theorem sendAct_busy {s : St} (b : Bool) (k : Nat) (hr : s.rpc = some k) : s.sendAct b = s := by
+  simp [St.sendAct, hr]
+
+theorem openGate_rb {s : St} (hrb : s.rollbackOnFail = false) : s.openGate.1.rollbackOnFail = false := by
+  unfold St.openGate
+  dsimp only
+  split
+  · exact hrb
+  · split
+    · exact hrb
+    · exact hrb
+
+theorem openGateAct_eq {s : St} (hrb : s.rollbackOnFail = false) : s.openGateAct = s.openGate.1 := by
+  unfold St.openGateAct
+  split
+  · exact afterFail_eq (openGate_rb hrb)
+  · rfl
+
+theorem close_rb {s : St} (hrb : s.rollbackOnFail = false) : s.close.rollbackOnFail = false := by
+  unfold St.close
+  dsimp only
+  split <;> exact hrb
+
+theorem closeAct_eq {s : St} (hrb : s.rollbackOnFail = false) : s.closeAct = s.close := by
+  unfold St.closeAct
+  split
+  · exact afterFail_eq (close_rb hrb)
+  · rfl
+
+theorem sendAct_inv {s : St} (b : Bool) (h : Inv s) : Inv (s.sendAct b) := by
+  cases hr : s.rpc with
+  | some k => rw [sendAct_busy b k hr]; exact h
+  | none => rw [sendAct_eq b h.1.rb hr]; exact inv_consumed _ (send_inv b h)
+
 theorem step_inv {s : St} (a : Act) (h : Inv s) : Inv (s.step a) := by
   cases a with
-  | send b => exact send_inv b h
+  | send b => exact sendAct_inv b h
   | gate o => cases o with
-    | true => exact openGate_inv h
+    | true => show Inv s.openGateAct; rw [openGateAct_eq h.1.rb]; exact openGate_inv h
     | false => exact closeGate_inv h
   | poll f => exact poll_inv f h
   | deliver m => exact deliver_inv m h
   | drop f => exact drop_inv f h
-  | close => exact close_inv h
+  | close => show Inv s.closeAct; rw [closeAct_eq h.1.rb]; exact close_inv h
 
 theorem run_inv' {s : St} (acts : List Act) (h : Inv s) : Inv (s.run acts) := by
   induction acts generalizing s with
@@ -711,5 +772,280 @@ theorem run_inv (acts : List Act) : Inv (St.run {} acts) := run_inv' acts inv_in
 
 theorem run_append (s : St) (a b : List Act) : s.run (a ++ b) = (s.run a).run b := by
   simp [St.run, List.foldl_append]
+
+end Session
+
+namespace Session
+
+/-! ## message-ids: the counter, the ghost record of the drawn ids, and what leaves them alone -/
+
+/-- the id bookkeeping of a state: counter, drawn ids, variant flag, blocked `rpc()`, ids on the wire -/
+def St.idv (s : St) : Nat × List Nat × Bool × Option Nat × List Nat :=
+  (s.nextId, s.consumed, s.rollbackOnFail, s.rpc, s.sent)
+
+theorem releaseRx_idv (s : St) : s.releaseRx.idv = s.idv := by
+  unfold St.releaseRx; split <;> rfl
+
+theorem finish_idv (s : St) (f : Fid) (r : Res) : (s.finish f r).idv = s.idv := by
+  show ((s.releaseRx).withPc f (.done r)).idv = s.idv
+  exact releaseRx_idv s
+
+theorem checkOwn_idv {s s' : St} {f : Fid} {id : Nat} (h : s.checkOwn f id = .fin s') : s'.idv = s.idv := by
+  unfold St.checkOwn at h
+  split at h
+  · cases h
+  · split at h
+    · cases h; exact finish_idv ..
+    · cases h; exact finish_idv ..
+    · cases h; exact finish_idv ..
+    · cases h
+
+theorem iter_idv (s : St) (f : Fid) (id : Nat) (b : Bool) :
+    (s.iter f id b).Post (fun s' => s'.idv = s.idv) (fun s' => s'.idv = s.idv) := by
+  unfold St.iter
+  split
+  · rfl
+  · next s' he =>
+    cases b with
+    | true => simp at he
+    | false => simp only [Bool.false_eq_true, if_false] at he; exact checkOwn_idv he
+  · split
+    · simp only [Iter.Post]; split
+      · exact finish_idv ..
+      · rfl
+    · dsimp only
+      split
+      · exact finish_idv ..
+      · split
+        · rfl
+        · split
+          · split
+            · simp only [Iter.Post]; exact releaseRx_idv _
+            · simp only [Iter.Post]; exact releaseRx_idv _
+          · exact finish_idv ..
+
+theorem runHolding_idv (fuel : Nat) (s : St) (f : Fid) (id : Nat) (b : Bool) :
+    (St.runHolding fuel s f id b).idv = s.idv := by
+  induction fuel generalizing s b with
+  | zero => rfl
+  | succ n ih =>
+    rw [runHolding_succ]
+    have := iter_idv s f id b
+    split
+    · next s' he => rw [he] at this; exact this
+    · next s' he => rw [he] at this; rw [ih]; exact this
+
+theorem poll_idv (s : St) (f : Fid) : (s.poll f).idv = s.idv := by
+  unfold St.poll
+  split
+  · rfl
+  · dsimp only
+    split
+    · rfl
+    · rfl
+    · split
+      · rw [runHolding_idv]; rfl
+      · rfl
+    · split
+      · rw [runHolding_idv]
+      · rfl
+    · rw [runHolding_idv]
+    · rw [runHolding_idv]
+    · split
+      · rfl
+      · split
+        · unfold St.park
+          split
+          · dsimp only
+            split
+            · rw [runHolding_idv]; exact releaseRx_idv _
+            · exact releaseRx_idv _
+          · exact finish_idv ..
+        · rfl
+
+theorem drop_idv (s : St) (f : Fid) : (s.drop f).idv = s.idv := by
+  unfold St.drop
+  split
+  · rfl
+  · split
+    · rfl
+    · rfl
+    · rfl
+    · split
+      · exact releaseRx_idv _
+      · rfl
+    · exact releaseRx_idv _
+    · exact releaseRx_idv _
+    · exact releaseRx_idv _
+
+end Session
+namespace Session
+
+theorem send_ids {s : St} (b : Bool) (hr : s.rpc = none) :
+    (s.send b).1.nextId = s.nextId + 1 ∧ (s.send b).1.consumed = s.consumed ∧
+    (s.send b).1.rollbackOnFail = s.rollbackOnFail ∧
+    ((s.send b).1.rpc = none ∨ (s.send b).1.rpc = some (s.nextId + 1)) ∧
+    ((s.send b).1.sent = s.sent ∨ (s.send b).1.sent = s.sent ++ [s.nextId + 1]) := by
+  unfold St.send
+  simp only [hr, Option.isSome_none, Bool.false_eq_true, if_false]
+  split
+  · exact ⟨rfl, rfl, rfl, .inl rfl, .inl rfl⟩
+  · split
+    · exact ⟨rfl, rfl, rfl, .inl rfl, .inl rfl⟩
+    · split
+      · exact ⟨rfl, rfl, rfl, .inl rfl, .inr rfl⟩
+      · split
+        · exact ⟨rfl, rfl, rfl, .inr rfl, .inl rfl⟩
+        · exact ⟨rfl, rfl, rfl, .inr rfl, .inl rfl⟩
+
+theorem openGate_ids (s : St) :
+    s.openGate.1.nextId = s.nextId ∧ s.openGate.1.consumed = s.consumed ∧
+    s.openGate.1.rollbackOnFail = s.rollbackOnFail ∧ (s.openGate.1.rpc = none ∨ s.openGate.1.rpc = s.rpc) ∧
+    (s.openGate.1.sent = s.sent ∨ ∃ k, s.rpc = some k ∧ s.openGate.1.sent = s.sent ++ [k]) := by
+  unfold St.openGate
+  dsimp only
+  split
+  · next hr => exact ⟨rfl, rfl, rfl, .inl hr, .inl rfl⟩
+  · next k hr =>
+    split
+    · exact ⟨rfl, rfl, rfl, .inl rfl, .inl rfl⟩
+    · exact ⟨rfl, rfl, rfl, .inl rfl, .inr ⟨k, hr, rfl⟩⟩
+
+theorem close_ids (s : St) :
+    s.close.nextId = s.nextId ∧ s.close.consumed = s.consumed ∧ s.close.rollbackOnFail = s.rollbackOnFail ∧
+    (s.close.rpc = none) ∧ s.close.sent = s.sent := by
+  unfold St.close
+  dsimp only
+  split
+  · next hr => exact ⟨rfl, rfl, rfl, hr, rfl⟩
+  · exact ⟨rfl, rfl, rfl, rfl, rfl⟩
+
+/-- the id bookkeeping invariant of the code as it is: the drawn ids are `1, 2, …, nextId` — every
+number once, in order —, a blocked `rpc()` and everything on the wire carry drawn ids -/
+structure Ids (s : St) : Prop where
+  rb : s.rollbackOnFail = false
+  cons : s.consumed = List.range' 1 s.nextId
+  rpcLe : ∀ k, s.rpc = some k → k ∈ s.consumed
+  sentCons : ∀ x ∈ s.sent, x ∈ s.consumed
+
+theorem ids_init : Ids {} := ⟨rfl, rfl, by simp, by simp⟩
+
+theorem ids_of_idv {s s' : St} (e : s'.idv = s.idv) (h : Ids s) : Ids s' := by
+  simp only [St.idv, Prod.mk.injEq] at e
+  obtain ⟨e1, e2, e3, e4, e5⟩ := e
+  exact ⟨e3 ▸ h.rb, by rw [e1, e2]; exact h.cons, by rw [e4, e2]; exact h.rpcLe, by rw [e5, e2]; exact h.sentCons⟩
+
+theorem range'_succ_right (n : Nat) : List.range' 1 (n + 1) = List.range' 1 n ++ [n + 1] := by
+  rw [List.range'_concat]; simp [Nat.add_comm]
+
+theorem step_ids {s : St} (a : Act) (h : Ids s) : Ids (s.step a) := by
+  cases a with
+  | poll f => exact ids_of_idv (poll_idv s f) h
+  | drop f => exact ids_of_idv (drop_idv s f) h
+  | deliver m => exact ids_of_idv (s := s) rfl h
+  | gate o =>
+    cases o with
+    | false => exact ids_of_idv (s := s) rfl h
+    | true =>
+      show Ids s.openGateAct
+      rw [openGateAct_eq h.rb]
+      obtain ⟨e1, e2, e3, e4, e5⟩ := openGate_ids s
+      refine ⟨e3 ▸ h.rb, by rw [e1, e2]; exact h.cons, ?_, ?_⟩
+      · intro k hk
+        rw [e2]
+        rcases e4 with e4 | e4
+        · rw [e4] at hk; cases hk
+        · exact h.rpcLe k (e4 ▸ hk)
+      · intro x hx
+        rw [e2]
+        rcases e5 with e5 | ⟨k, hk, e5⟩
+        · exact h.sentCons x (e5 ▸ hx)
+        · rw [e5] at hx
+          rcases List.mem_append.1 hx with hx | hx
+          · exact h.sentCons x hx
+          · simp only [List.mem_singleton] at hx; subst hx; exact h.rpcLe x hk
+  | close =>
+    show Ids s.closeAct
+    rw [closeAct_eq h.rb]
+    obtain ⟨e1, e2, e3, e4, e5⟩ := close_ids s
+    exact ⟨e3 ▸ h.rb, by rw [e1, e2]; exact h.cons, (by rw [e4]; intro k hk; cases hk), by rw [e5, e2]; exact h.sentCons⟩
+  | send b =>
+    show Ids (s.sendAct b)
+    cases hr : s.rpc with
+    | some k => rw [sendAct_busy b k hr]; exact h
+    | none =>
+      rw [sendAct_eq b h.rb hr]
+      obtain ⟨e1, e2, e3, e4, e5⟩ := send_ids (s := s) b hr
+      refine ⟨e3 ▸ h.rb, ?_, ?_, ?_⟩
+      · show s.consumed ++ [s.nextId + 1] = List.range' 1 (s.send b).1.nextId
+        rw [e1, range'_succ_right, h.cons]
+      · intro k hk
+        show k ∈ s.consumed ++ [s.nextId + 1]
+        rcases e4 with e4 | e4
+        · rw [show (s.send b).1.rpc = some k from hk] at e4; cases e4
+        · rw [show (s.send b).1.rpc = some k from hk] at e4; cases e4; simp
+      · intro x hx
+        show x ∈ s.consumed ++ [s.nextId + 1]
+        rcases e5 with e5 | e5
+        · exact List.mem_append_left _ (h.sentCons x (e5 ▸ hx))
+        · rw [show (s.send b).1.sent = _ from e5] at hx
+          rcases List.mem_append.1 hx with hx | hx
+          · exact List.mem_append_left _ (h.sentCons x hx)
+          · exact List.mem_append_right _ hx
+
+theorem run_ids' {s : St} (acts : List Act) (h : Ids s) : Ids (s.run acts) := by
+  induction acts generalizing s with
+  | nil => exact h
+  | cons a as ih => exact ih (step_ids a h)
+
+/-- the id bookkeeping invariant holds in every reachable state of the current code -/
+theorem run_ids (acts : List Act) : Ids (St.run {} acts) := run_ids' acts ids_init
+
+/-- an executed `send` draws the next id; no other action touches the counter or the record -/
+theorem step_nextId {s : St} (hrb : s.rollbackOnFail = false) (a : Act) :
+    (∀ b, a = .send b → s.rpc = none →
+        (s.step a).nextId = s.nextId + 1 ∧ (s.step a).consumed = s.consumed ++ [s.nextId + 1]) ∧
+    (∀ b k, a = .send b → s.rpc = some k → s.step a = s) ∧
+    ((∀ b, a ≠ .send b) → (s.step a).nextId = s.nextId ∧ (s.step a).consumed = s.consumed) := by
+  refine ⟨?_, ?_, ?_⟩
+  · rintro b rfl hr
+    show (s.sendAct b).nextId = _ ∧ (s.sendAct b).consumed = _
+    rw [sendAct_eq b hrb hr]
+    exact ⟨(send_ids b hr).1, rfl⟩
+  · rintro b k rfl hr
+    exact sendAct_busy b k hr
+  · intro hne
+    cases a with
+    | send b => exact absurd rfl (hne b)
+    | poll f => have := poll_idv s f; simp only [St.idv, Prod.mk.injEq] at this; exact ⟨this.1, this.2.1⟩
+    | drop f => have := drop_idv s f; simp only [St.idv, Prod.mk.injEq] at this; exact ⟨this.1, this.2.1⟩
+    | deliver m => exact ⟨rfl, rfl⟩
+    | gate o =>
+      cases o with
+      | false => exact ⟨rfl, rfl⟩
+      | true =>
+        show s.openGateAct.nextId = _ ∧ s.openGateAct.consumed = _
+        rw [openGateAct_eq hrb]; exact ⟨(openGate_ids s).1, (openGate_ids s).2.1⟩
+    | close =>
+      show s.closeAct.nextId = _ ∧ s.closeAct.consumed = _
+      rw [closeAct_eq hrb]; exact ⟨(close_ids s).1, (close_ids s).2.1⟩
+
+theorem step_nextId_le {s : St} (hrb : s.rollbackOnFail = false) (a : Act) : s.nextId ≤ (s.step a).nextId := by
+  obtain ⟨h1, h2, h3⟩ := step_nextId hrb a
+  cases a with
+  | send b =>
+    cases hr : s.rpc with
+    | none => rw [(h1 b rfl hr).1]; omega
+    | some k => rw [h2 b k rfl hr]; omega
+  | poll f => rw [(h3 (fun _ h => by cases h)).1]; omega
+  | drop f => rw [(h3 (fun _ h => by cases h)).1]; omega
+  | deliver m => rw [(h3 (fun _ h => by cases h)).1]; omega
+  | gate o => rw [(h3 (fun _ h => by cases h)).1]; omega
+  | close => rw [(h3 (fun _ h => by cases h)).1]; omega
+
+theorem run_nextId_le {s : St} (h : Ids s) (acts : List Act) : s.nextId ≤ (s.run acts).nextId := by
+  induction acts generalizing s with
+  | nil => exact Nat.le_refl _
+  | cons a as ih => exact Nat.le_trans (step_nextId_le h.rb a) (ih (step_ids a h))
 
 end Session
